@@ -299,16 +299,16 @@ class Run:
         self.cov["evaluations"] += nf
         if not_aof:
             ctx.violation("follower-hold-not-from-stream", "the follower's lock table contains a hold that did not arrive through the replicated stream (SHOW state bit 0x08 clear)",
-                          {"holds": not_aof[:5]})
+                          {"scenario": "follower_state", "holds": not_aof[:5]})
         if only_f:
-            ctx.violation("follower-holds-unknown-to-leader", "the follower holds keys that the leader does not hold (after settling)", {"keys": dict(list(only_f.items())[:8])})
+            ctx.violation("follower-holds-unknown-to-leader", "the follower holds keys that the leader does not hold (after settling)", {"scenario": "follower_state", "keys": dict(list(only_f.items())[:8])})
         # a non-leader never queues and never times anything out on its own
         st = cl.collect(cl.run_plan(cl.fport, [{"id": "state", "conns": [{"kind": "bin"}], "drain_ms": 200,
                                                 "steps": [{"c": 0, "op": "state", "rid": "ab" * 16, "wait": "reply"}]}]))["state"]["steps"][0].get("reply") or {}
         s = st.get("state") or {}
         self.cov["follower_counters"] = s
         if s.get("wait", 0) or s.get("timeouted", 0):
-            ctx.violation("follower-queued-or-timed-out", "the follower's own counters show queued / timed-out requests", {"state": s})
+            ctx.violation("follower-queued-or-timed-out", "the follower's own counters show queued / timed-out requests", {"scenario": "follower_state", "state": s})
 
     # ------------------------------------------------------------------ fixed scenarios
     def witnesses(self, cl, flags):
@@ -329,14 +329,14 @@ class Run:
                        (lead6["pushes_answered"] == 4 and not lead6["ping_answered"]) == model_shift)
         if lead1["shifted"]:
             ctx.violation("leader-text-push-result-shifts-replies", "PUSH then LOCK on a text connection to the leader: the LOCK is handed the PUSH's result",
-                          {"witness": "Relay.direct_push_shifts", "run": lead1})
+                          {"scenario": "witness", "witness": "Relay.direct_push_shifts", "run": lead1})
         if lead6["pushes_answered"] < 6 or not lead6["ping_answered"]:
             ctx.violation("leader-text-push-blocks-connection", "six immediately answered PUSHes on a text connection to the leader: %d answered, the connection hangs"
-                          % lead6["pushes_answered"], {"witness": "Relay.direct_push_blocks", "run": lead6})
+                          % lead6["pushes_answered"], {"scenario": "witness", "witness": "Relay.direct_push_blocks", "run": lead6})
         if foll1["shifted"] or not foll1["lock_answered"]:
-            ctx.violation("follower-text-push-shifts-replies", "PUSH then LOCK through the follower: the LOCK is not handed its own result", {"run": foll1})
+            ctx.violation("follower-text-push-shifts-replies", "PUSH then LOCK through the follower: the LOCK is not handed its own result", {"scenario": "witness", "run": foll1})
         if foll6["pushes_answered"] < 6 or not foll6["ping_answered"] or not foll6["lock_reply_is_own"]:
-            ctx.violation("follower-text-push-blocks-or-shifts", "six PUSHes through the follower", {"run": foll6})
+            ctx.violation("follower-text-push-blocks-or-shifts", "six PUSHes through the follower", {"scenario": "witness", "run": foll6})
         return res
 
     def stale_probe(self, cl):
@@ -374,7 +374,7 @@ class Run:
             ctx.violation("link-drop-unanswered-inflight:text", "the text client's waiting LOCK was never answered after the link dropped (Relay.relay_drop_releases says it is)",
                           {"scenario": "cut", "run": r})
         if r["after_bin"] != 0:
-            ctx.violation("link-drop-connection-unusable", "after the link cut the same client connection cannot reach the leader any more", {"run": r})
+            ctx.violation("link-drop-connection-unusable", "after the link cut the same client connection cannot reach the leader any more", {"scenario": "cut", "run": r})
         if cutafter is None:
             self.cut_tie(cl, r)
         return r
@@ -409,7 +409,7 @@ class Run:
                        % evs, ok, json.dumps(probs)[:600] if probs else "")
         self.cov.setdefault("link_cut_tie", []).append({"events": evs, "model": str(pred), "problems": probs})
         if probs:
-            ctx.violation("tie:relay-model-disagrees:cut", "Relay.run and the real relay disagree after a link drop", {"events": evs, "problems": probs}, found_input=True)
+            ctx.violation("tie:relay-model-disagrees:cut", "Relay.run and the real relay disagree after a link drop", {"scenario": "cut", "events": evs, "problems": probs}, found_input=True)
 
     def roles(self, cl):
         ctx, sc = self.ctx, self.scenarios
@@ -428,9 +428,9 @@ class Run:
         self.cov["evaluations"] += len(d["info"])
         for x in bad:
             ctx.violation("role-change:demoted-leader:reply-differs:%s" % x.get("op"), "after the leader was made a follower between two requests of one connection, "
-                          "a reply is neither the leader's nor a refusal", {"diff": x, "script": d["script"]})
+                          "a reply is neither the leader's nor a refusal", {"scenario": "roles", "diff": x, "script": d["script"]})
         for e in d["echo"]:
-            ctx.violation("role-change:demoted-leader:reply-names-another-command", "shifted reply after demotion", {"echo": e, "script": d["script"]})
+            ctx.violation("role-change:demoted-leader:reply-names-another-command", "shifted reply after demotion", {"scenario": "roles", "echo": e, "script": d["script"]})
         if not done:
             ctx.violation("role-change:leader-to-follower-never-completes",
                           "admin SLAVEOF host port on a running leader never returns: the node stays in the syncing state and refuses every request (%d refusals seen)"
@@ -438,15 +438,16 @@ class Run:
         r = sc.role_scenario(cl, self.prefix("R"), self.prefix("R"))
         promoted = r["admin"] and r["admin"][0][1] == {"s": "OK"}
         self.cov["role_promote"] = {"slaveof_answered": bool(promoted), "strict_differences": len(r["strict_diffs"]), "refused_after_demotion": len(r["refused_after_demotion"]),
-                                    "other_differences_after_demotion": len(r["loose_diffs"])}
+                                    "other_differences_after_demotion": len(r["loose_diffs"]),
+                                    "flush_notices_of_demoted_old_leader": len(r["flush_notices"])}
         self.cov["evaluations"] += len(r["info"])
         for x in r["strict_diffs"]:
             ctx.violation("role-change:promoted-follower:reply-differs:%s" % x.get("op"), "after the follower was promoted between two requests of one connection, a reply "
-                          "differs from what a leader with the same holds answers", {"diff": x, "script": r["script"]})
+                          "differs from what a leader with the same holds answers", {"scenario": "roles", "diff": x, "script": r["script"]})
         for x in r["loose_diffs"]:
-            ctx.violation("role-change:demoted-old-leader:reply-differs:%s" % x.get("op"), "reply neither equal nor a refusal", {"diff": x, "script": r["script"]})
+            ctx.violation("role-change:demoted-old-leader:reply-differs:%s" % x.get("op"), "reply neither equal nor a refusal", {"scenario": "roles", "diff": x, "script": r["script"]})
         for e in r["echo"]:
-            ctx.violation("role-change:reply-names-another-command", "shifted reply after a role change", {"echo": e, "script": r["script"]})
+            ctx.violation("role-change:reply-names-another-command", "shifted reply after a role change", {"scenario": "roles", "echo": e, "script": r["script"]})
 
     # ------------------------------------------------------------------ model tie
     def model_tie(self, cl, extra_sessions=None):
@@ -480,7 +481,28 @@ class Run:
         ctx.obligation("observed wire events of %d text connections (%d events) run through Relay.run by vm_compute: the model's hand-outs equal what the clients received"
                        % (len(jobs), nev), not problems and len(jobs) > 0, json.dumps(problems[:3])[:800] if problems else "")
         if problems:
-            ctx.violation("tie:relay-model-disagrees", "Relay.run and the real relay disagree on what a text client is handed", {"problems": problems[:5]}, found_input=True)
+            ctx.violation("tie:relay-model-disagrees", "Relay.run and the real relay disagree on what a text client is handed", {"scenario": "full", "problems": problems[:5]}, found_input=True)
+
+
+def replay_kind(j):
+    """what a replay file asks for: 'script' (one symbolic script, run against leader and follower), a scenario
+    ('witness', 'stale_probe', 'cut', 'roles', 'follower_state') or 'full' (the whole seeded run)"""
+    rp = j.get("replay", j) if isinstance(j, dict) else {}
+    sc = rp.get("script") if isinstance(rp, dict) else None
+    if isinstance(sc, dict) and sc.get("steps") and "family" in sc and all("args" not in st and "rid" not in st for st in sc["steps"]):
+        return "script"
+    name = (rp.get("scenario") if isinstance(rp, dict) else None) or j.get("scenario")
+    alias = {"demote": "roles", "role": "roles", "roles": "roles", "cut": "cut", "stale_probe": "stale_probe", "witness": "witness",
+             "follower_state": "follower_state", "full": "full"}
+    if name in alias:
+        return alias[name]
+    sig = j.get("signature", "")
+    for pre, k in (("role-change:", "roles"), ("link-drop", "cut"), ("tie:relay-model-disagrees:cut", "cut"), ("follower-probe", "stale_probe"),
+                   ("probe-differs", "stale_probe"), ("leader-text-push", "witness"), ("follower-text-push", "witness"),
+                   ("follower-hold", "follower_state"), ("follower-queued", "follower_state")):
+        if sig.startswith(pre):
+            return k
+    return "full"
 
 
 def corpus_scripts():
@@ -523,11 +545,19 @@ def run(ctx):
             "linkproxy": ctx.go_build("c10p-linkproxy", mod, pkg="./cmd/linkproxy", tags="")}
     # ---- 3. scripts
     import gen
+    kind = None
     if getattr(ctx, "replay", None):
         j = json.load(open(ctx.replay))
+        kind = replay_kind(j)
         rp = j.get("replay", j)
-        scripts = [rp["script"]] if "script" in rp else []
+        scripts = [rp["script"]] if kind == "script" else []
         n_gen = 0
+        if kind == "full":      # the failing input is the whole seeded run
+            import random
+            ctx.rng = random.Random(int(j.get("seed", ctx.seed)))
+            n_gen = 400 if j.get("tier", ctx.tier) == "thorough" else 30
+            scripts = corpus_scripts() + gen.generate(ctx.rng, n_gen)
+        ctx.notes.append("replay of %s as kind '%s'" % (ctx.replay, kind))
     else:
         n_gen = 400 if thorough else 30
         scripts = corpus_scripts() + gen.generate(ctx.rng, n_gen)
@@ -536,11 +566,21 @@ def run(ctx):
     try:
         cl.start()
         R.cov["cluster_start_s"] = round(time.time() - t0, 2)
-        R.witnesses(cl, flags)
+        if kind in (None, "full", "script", "witness"):
+            R.witnesses(cl, flags)
         batch = 40
         for k in range(0, len(scripts), batch):
             R.differential(cl, scripts[k:k + batch])
-        if not getattr(ctx, "replay", None):
+        if kind == "follower_state":
+            R.follower_state(cl)
+        elif kind == "stale_probe":
+            R.stale_probe(cl)
+        elif kind == "cut":
+            rr = (j.get("replay", j).get("run") or {}) if isinstance(j.get("replay", j), dict) else {}
+            R.cut(cl, flags, nflight=int(rr.get("nflight") or 6), cutafter=rr.get("cutafter"))
+        elif kind == "roles":
+            R.roles(cl)
+        if kind in (None, "full"):
             R.follower_state(cl)
             R.model_tie(cl)
             R.stale_probe(cl)
@@ -554,7 +594,7 @@ def run(ctx):
             if not cl.alive(name) and name in cl.procs:
                 ctx.violation("process-died:" + name, "a slock process died during the run", {"log": open(os.path.join(cl.dir, name + ".out")).read()[-3000:]})
     finally:
-        cl.stop()
+        cl.stop(keep=bool(os.environ.get("C10P_KEEP")))     # C10P_KEEP=1: leave /tmp/c10proc-<pid>-main (logs) for inspection
     cov = R.cov
     cov["distinct_nontrivial"] = len(R.distinct)
     cov["rule"] = "distinct (script family, protocol, command, result obtained through the follower) classes"
